@@ -23,6 +23,7 @@ import (
 	"sort"
 	"strings"
 	"sync"
+	"sync/atomic"
 	"time"
 
 	"github.com/jhalter/mobius/hotline"
@@ -132,10 +133,14 @@ type xfer struct {
 // transferSet tracks the transfer goroutines of one case so that they can all be awaited once.
 type transferSet struct {
 	ts *TS
+	x  *Ctx
 	xs []*xfer
 }
 
 func (s *transferSet) start(ref [4]byte, conn *dlgConn) *xfer {
+	if s.x != nil {
+		atomic.AddInt64(&s.x.evals, 1) // every transfer through the real handler is one evaluation
+	}
 	x := &xfer{ts: s.ts, ref: ref, conn: conn, done: make(chan error, 1)}
 	s.xs = append(s.xs, x)
 	go func() {
